@@ -40,6 +40,7 @@ Kinds == {"connectHost",    \* CONNECT example.org:443
           "checkGet",       \* GET with authority _check   (reserved name, wrong method)
           "udpPost",        \* POST with authority _udp2
           "connectNoPort",  \* CONNECT example.org          (no port)
+          "getNoHost",      \* GET /index.html, no Host     (names no destination at all; HTTP/1.1 origin-form)
           "upperCheck",     \* CONNECT _CHECK:443           (look-alike: ordinary host name)
           "checkPort",      \* CONNECT _check:80            (look-alike: ordinary host name)
           "udpSuffix"}      \* CONNECT _udp2x:443           (look-alike: ordinary host name)
@@ -121,7 +122,7 @@ Dispatch(k) ==
     CASE k = "check"                      -> "health"
       [] k \in MuxKinds                   -> "mux"
       [] k \in {"checkGet", "udpPost"}    -> "badMethod"
-      [] k = "connectNoPort"              -> "noPort"
+      [] k \in {"connectNoPort", "getNoHost"} -> "noPort"
       [] OTHER                            -> "tcp"
 
 --------------------------------------------------------------------------
@@ -256,7 +257,7 @@ ExactlyOne ==
 
 \* C10: reserved authorities and port-less CONNECTs never reach the connector
 ReservedNeverDialled ==
-    \A s \in Streams : req[s].kind \in {"check", "udp", "icmp", "checkGet", "udpPost", "connectNoPort"}
+    \A s \in Streams : req[s].kind \in {"check", "udp", "icmp", "checkGet", "udpPost", "connectNoPort", "getNoHost"}
                         => << s, "tcp" >> \notin egress
 
 \* C10: the response is the documented one
